@@ -157,11 +157,26 @@ static void oracle(int w, int arena_mode, int rounds, long purge_delay) {
   printf("STAT blocks_checked %d\nSTAT arena_pages_checked %ld\nSTAT munmaps %ld\nSTAT final_mapped %zu\n", neverused, arena_pages, vm_count_events(0, VM_MUNMAP, 1), vm_mapped_bytes);
 }
 
+
+// search side of `generated_good_alloc_size_is_whole_pages`: the statement of the theorem evaluated on the compiled
+// _mi_os_good_alloc_size around every threshold of its alignment table, on page / alignment boundaries and on random sizes
+static void good_section(void) {
+  const size_t ps = _mi_os_page_size();
+  static const size_t TH[] = { 1, 4096, 65536, 512u << 10, 2u << 20, 8u << 20, 32u << 20, 64u << 20, (size_t)1 << 32, (size_t)1 << 40, (size_t)1 << 62 };
+  for (size_t t = 0; t < sizeof(TH) / sizeof(TH[0]); t++) for (int d = -70000; d <= 70000; d += (d > -3 && d < 3) ? 1 : 4099) for (int r = 0; r < 2; r++) {
+    size_t size = TH[t] + (size_t)(long)d + (r ? (size_t)(rnd() % (TH[t] + 1)) : 0);
+    if (size == 0 || size >= ((size_t)1 << 63)) continue;
+    size_t g = _mi_os_good_alloc_size(size); n_eval++;
+    if (g < size || g % ps != 0 || g >= size + size / 8 + ps)
+      FAIL("good_alloc_size_not_whole_pages", "_mi_os_good_alloc_size(%zu) = %zu with page size %zu (must be >= the request, a multiple of the page size, < request + request/8 + page)", size, g, ps);
+  }
+}
+
 int main(int argc, char** argv) {
   if (argc < 3) { fprintf(stderr, "usage: c11 model <seed> | c11 oracle <seed> <workload> <arena_mode> <rounds> [purge_delay]\n"); return 2; }
   uint64_t seed = strtoull(argv[2], 0, 10);
   rs ^= seed * 0x9E3779B97F4A7C15ULL; if (!rs) rs = 1; for (int i = 0; i < 8; i++) rnd();
-  if (strcmp(argv[1], "model") == 0) { model_mode(); aalign_section(); }
+  if (strcmp(argv[1], "model") == 0) { model_mode(); aalign_section(); good_section(); }
   else oracle(atoi(argv[3]), atoi(argv[4]), atoi(argv[5]), argc > 6 ? atol(argv[6]) : 10);
   printf("STAT evaluations %ld\nDONE\n", n_eval);
   fflush(stdout);
